@@ -27,7 +27,7 @@ func (c20) Budget(tier string) int {
 	if tier == "thorough" {
 		return 6000
 	}
-	return 240
+	return 720
 }
 
 func (c20) Describe() engine.Info {
